@@ -829,6 +829,34 @@ fn check_c16(seed: u64, tier: Tier, replay: Option<String>) -> i32 {
         acc.add_history(Some(&mh[*i]), None, ev, &c16_class);
     }
     acc.samples.push(json!({"memo_history_in_one_process": mh.first().map(|h| &h.steps), "reported": mres.first().map(|(_, e)| e.results.clone())}));
+    // enumerated: every single- and multi-field deviation from the sentinel as a VERIFYING template,
+    // offered to the object constructors over a stand-in child circuit with free public inputs
+    let mut sweeps: Vec<(String, usize, usize, Vec<Vec<(usize, u64)>>)> = vec![];
+    {
+        let mut srng = Rng::new(mix(seed, 0x16F0));
+        let layers: Vec<(&str, usize, usize)> = if quick { vec![("leaf", 1, 1), ("pb", 1, 1), ("pb", 2, 2)] } else { vec![("leaf", 1, 1), ("leaf", 2, 1), ("pb", 1, 1), ("pb", 2, 2), ("pb", 3, 1)] };
+        for (layer, n, m) in layers {
+            let mut specs = c17::free_pi_specs(layer, n, &mut srng, if quick { 6 } else { 60 });
+            if quick && layer == "pb" && n >= 2 {
+                // quick keeps, for the larger shape, what the smaller one cannot show: deviations in the LAST
+                // slots (alone, and with a lowered slot-count header)
+                let last = 8 + 10 * n - 10;
+                specs.retain(|sp| sp.is_empty() || (sp.iter().any(|(i, _)| *i >= last && *i < last + 10) && sp.iter().all(|(i, x)| *i != 0 || *x <= 1)));
+            }
+            for ch in specs.chunks(12) {
+                sweeps.push((layer.to_string(), n, m, ch.to_vec()));
+            }
+        }
+    }
+    let sres = par_map(&sweeps, "c16f", 0, |sb, (layer, n, m, specs)| c17::run_free_pi_chunk(sb, layer, *n, *m, specs));
+    let mut free_pi_templates = 0u64;
+    for (i, ev) in &sres {
+        free_pi_templates += sweeps[*i].3.len() as u64;
+        acc.evals += sweeps[*i].3.len() as u64 - 1; // add_history counts one
+        acc.add_history(None, None, ev, &c16_class);
+        acc.nontrivial.insert(qpz_core::rng::hash_str(&format!("{:?}", sweeps[*i])));
+    }
+    acc.samples.push(json!({"free_public_input_sweep": sweeps.first().map(|s| (&s.0, s.1, s.2, &s.3[..s.3.len().min(4)]))}));
     let n_bh: u64 = if quick { 3 } else { 600 };
     let bseeds: Vec<u64> = (0..n_bh).map(|i| mix(seed, 0x16B0_0000 + i)).collect();
     let bres = par_map(&bseeds, "c16b", if quick { 0 } else { qpz_core::budget_s(900) / 4 }, |sb, s| {
@@ -847,6 +875,7 @@ fn check_c16(seed: u64, tier: Tier, replay: Option<String>) -> i32 {
     extra.insert("faulted_templates_rejected".into(), json!(rejected));
     extra.insert("faulted_templates_accepted_while_satisfying_the_predicate".into(), json!(accepted_ok_predicate));
     extra.insert("cases_planned".into(), json!(cases.len()));
+    extra.insert("verifying_templates_over_free_public_input_circuits".into(), json!(free_pi_templates));
     let complete = res.len() == cases.len() && !quick;
     finish_load_check("C16", tier, seed, t0, acc, &refs, "one evaluation = one entry point (constructor, loader, aggregator init or build stage; child process) given one faulted padding template; the template is judged by the harness's own predicate (deserialises, sentinel at the documented offsets, accepted by the canonical verifier) and any template failing it must be refused; distinct = distinct (shape, entry point, template fault); non-trivial = a template fault is present", complete, extra, &leaf_path, &pb_path)
 }
